@@ -7,12 +7,16 @@ What is proved here is the *reason* concurrent calls return the single-threaded 
      every path (model of Part 2), and the extracted `gil_release` sites fall into these idioms
      with no interpreter call lexically inside a released region,
  T3  no C++ object with static storage duration is written by a kernel, and the Python module globals
-     written by functions are idempotent lazy caches or listed open findings
-     (`decide` over the table the translator extracts from the current sources).
+     written by functions are idempotent lazy caches, without exception
+     (`decide` over the table the translator extracts from the current sources),
+ T4  the access programs of the kernels (erode, convolve, label, cwatershed, labeled folds) touch only
+     the call's arguments and its own arrays, so any family of calls with disjoint outputs is confined
+     and T1 applies to it; the erode / convolve / labeled-fold programs compute the models' values.
 Real data races inside the compiled C++ and CPython's own guarantees are runtime behaviour and are
 only validated (thread stress), see the evidence file.
 -/
 import Mahotas.Proofs.C12
+import Mahotas.Proofs.C12Kernels
 import Mahotas.Generated.Statics
 namespace Mahotas.C12
 open Mahotas
@@ -35,18 +39,14 @@ it at module initialisation). -/
 def staticOk (o : Generated.StaticObj) : Bool :=
   o.isConst || (!o.written)
 
-/-- Python module globals that are written by a function and are NOT (yet) benign under threads —
-hand-written exception list, each entry an OPEN known finding of `known_findings.d/C12.json`:
-`mahotas/labeled.py` `_perimeter_values` is published (`= np.zeros(34)`) before it is filled in, so a
-second thread can compute a perimeter from a half-built table (key `thread-mismatch:perimeter-first-use`).
-The entry becomes unused once the table is built privately and published by one rebinding. -/
-def knownOpenGlobals : List (String × String) := [("mahotas/labeled.py", "_perimeter_values")]
-
 /-- T3 predicate for Python module globals that some function rebinds or mutates: a lazily
 initialised cache whose complete value is published by a single guarded rebinding (every racing
-initialiser publishes an equal value; readers never see it half built) — or a listed open finding. -/
+initialiser publishes an equal value; readers never see it half built). There is NO exception list:
+the former entry `labeled._perimeter_values` (published before it was filled in, finding
+`thread-mismatch:perimeter-first-use`) is repaired in the sources — the table is now built in a local
+and published by one rebinding. -/
 def pyGlobalOk (o : Generated.StaticObj) : Bool :=
-  o.lazyIdempotent || knownOpenGlobals.contains (o.file, o.name)
+  o.lazyIdempotent
 
 /-- T2 (site table) predicate: the site uses one of the three idioms and no Python C-API call is
 lexically inside the released region -/
@@ -183,15 +183,198 @@ theorem C12_no_shared_writes :
     (Generated.statics.filter (fun o => o.lang == "c++")).length ≥ 40 := by
   decide
 
-/-- **C12-T3 (Python module globals).** Every module global of `mahotas/**.py` that some function
-rebinds (`global X`) or mutates in place is a lazily initialised cache published complete by ONE guarded
-rebinding — or is listed in `knownOpenGlobals` (today: `labeled._perimeter_values`, an open known
-finding: the table is published before it is filled). Any NEW function-written global that is not an
+/-- **C12-T3 (Python module globals, no exceptions).** Every module global of `mahotas/**.py` that some
+function rebinds (`global X` followed by a plain, augmented, annotated or tuple-unpacking assignment, a
+`for` / `with … as` target, a walrus or a `del`) or mutates in place (item / attribute / slice store,
+`del X[…]`, a mutating method such as `append`/`update`/`sort`/`fill` on the global or on something
+reached from it) is a lazily initialised cache: the writes sit under an `if X is None:` guard, the
+complete, argument-independent value is published by ONE rebinding and nothing mutates it afterwards.
+NO function-written global is excused (the earlier `knownOpenGlobals` list is gone); the table is
+extracted from the current sources on every run, so any NEW function-written global that is not an
 idempotent lazy cache makes this statement false. -/
-theorem C12_python_globals_benign_except_known :
+theorem C12_python_globals_benign :
     (Generated.statics.filter (fun o => o.lang == "py")).all pyGlobalOk = true ∧
-    (Generated.statics.filter (fun o => o.lang == "py")).length ≥ 1 := by
+    (Generated.statics.filter (fun o => o.lang == "py")).length ≥ 1 ∧
+    (Generated.statics.any fun o => o.lang == "py" && o.name == "_perimeter_values" && o.lazyIdempotent) = true := by
   decide
+
+/-! ## T4 — the kernels are confined; concurrent kernels with disjoint outputs are independent -/
+
+/-- **C12-T4 (kernel confinement).** Each of the five kernel access programs of `Model/C12Kernels.lean`
+— `erode` (gather through `fixPos`/`C08.View.addr`, result at the iterator address), `convolve` (same
+shape, weights copied into the call's own filter buffer, flagged samples not read), `label` (reads Bc;
+reads AND writes its own `labeled` buffer where the union-find parents live, its register and its
+`seen` map), `cwatershed` (reads surface, markers, Bc; writes its result, `status`, priority queue,
+`lines` and neighbour table) and the labeled folds (`labeled_foldl`: reads array and labels, writes
+`result[label]`) — called on ANY footprint `c` with at least one owned array, for ALL shapes, strides,
+base offsets, element values, border modes and fold functions:
+(1) every step writes an array the call owns and reads only argument arrays or owned arrays
+(`KStep.Within`: write set ⊆ outputs, read set ⊆ inputs ∪ outputs, stated on `writeSet`/`readSet`);
+(2) in every family of calls with disjoint outputs in which this call is number `t`, every step of the
+compiled thread program is `Step.Confined t` (writes `priv t`, reads `priv t` or `sharedRO`).
+The read set over-approximates where the C++ leaves a loop early (`erode`'s break at the dtype minimum).
+How the programs relate to the kernels' VALUES is a separate matter: see `C12_erode_program_computes_model`,
+`C12_convolve_program_computes_model`, `C12_labeled_fold_program_computes_model` (tied) and
+`C12_label_cwatershed_traces_partial` (sets only). -/
+theorem C12_kernel_confined (k : Kernel) (c : Call) (hne : c.outputs ≠ []) :
+    (∀ s ∈ (k.call c).prog, s.Within c) ∧
+    (∀ l ∈ writeSet (k.call c).prog, l.arr ∈ c.outputs) ∧
+    (∀ l ∈ readSet (k.call c).prog, l.arr ∈ c.inputs ∨ l.arr ∈ c.outputs) ∧
+    (∀ (kcs : List KCall) (t : Nat), kcs[t]? = some (k.call c) → DisjointOutputs (kcs.map (·.call)) →
+      ∀ s ∈ compile kcs t, s.Confined t) := by
+  have hw : ∀ s ∈ (k.call c).prog, s.Within c := prog_within (k.call c) hne
+  refine ⟨hw, ?_, ?_, ?_⟩
+  · intro l hl
+    simp only [writeSet, List.mem_map] at hl
+    obtain ⟨s, hs, rfl⟩ := hl
+    exact (hw s hs).1
+  · intro l hl
+    simp only [readSet, List.mem_flatMap] at hl
+    obtain ⟨s, hs, hl⟩ := hl
+    exact (hw s hs).2 l hl
+  · intro kcs t ht hd s hs
+    unfold compile at hs
+    rw [ht] at hs
+    simp only [List.mem_map] at hs
+    obtain ⟨ks, hks, rfl⟩ := hs
+    exact compile_step_confined _ hd t c (by simp [ht, Kernel.call]) ks (hw ks hks)
+
+/-- **C12-T4 (concurrent kernels are independent).** Take any number of native calls in flight — any mix
+of the five kernels with any parameters, call number `t` running kernel `ks[t].1` on the arrays
+`ks[t].2` — such that every call owns at least one array and the outputs are disjoint: an array owned
+by one call (result buffer, queue, status, filter copy, …) is neither owned nor read by another call
+(shared ARGUMENT arrays are allowed). Then for EVERY schedule and every initial memory:
+(1) after the interleaved run every location of every array owned by call `t` holds exactly what it
+holds after `t` has run alone for as many turns as the schedule gave it — in particular
+(2) for a complete schedule, exactly the result of its complete solo run — and
+(3) every array that no call owns (the shared inputs) is unchanged.
+Obtained from `C12_interleaving_independent(_complete)` and `C12_shared_unchanged` through
+`compile_confined`. -/
+theorem C12_concurrent_kernels_independent (ks : List (Kernel × Call))
+    (hne : ∀ p ∈ ks, p.2.outputs ≠ []) (hd : DisjointOutputs (ks.map (·.2)))
+    (sched : List Nat) (m : Mem) :
+    let kcs := ks.map (fun p => p.1.call p.2)
+    let calls := ks.map (·.2)
+    (∀ (t : Nat) (p : Kernel × Call), ks[t]? = some p → ∀ l : KLoc, l.arr ∈ p.2.outputs →
+      (run (compile kcs) sched (init m)).mem (l.toLoc calls) =
+        (soloSteps (compile kcs) t (sched.count t) m).mem (l.toLoc calls) ∧
+      (Complete (compile kcs) sched →
+        (run (compile kcs) sched (init m)).mem (l.toLoc calls) = solo (compile kcs) t m (l.toLoc calls))) ∧
+    (∀ l : KLoc, (∀ p ∈ ks, l.arr ∉ p.2.outputs) →
+      (run (compile kcs) sched (init m)).mem (l.toLoc calls) = m (l.toLoc calls)) := by
+  intro kcs calls
+  have hcalls : kcs.map (·.call) = calls := by
+    simp [kcs, calls, Kernel.call, Function.comp_def]
+  have hconf : Confined (compile kcs) := by
+    apply compile_confined
+    · intro kc hkc
+      simp only [kcs, List.mem_map] at hkc
+      obtain ⟨p, hp, rfl⟩ := hkc
+      exact hne p hp
+    · rw [hcalls]; exact hd
+  refine ⟨?_, ?_⟩
+  · intro t p ht l hl
+    have hreg : (l.toLoc calls).region = .priv t :=
+      region_of_output calls hd t p.2 (by simp [calls, ht]) l.arr hl
+    refine ⟨(C12_interleaving_independent _ hconf sched m t).1 _ hreg, fun hs => ?_⟩
+    exact C12_interleaving_independent_complete _ hconf sched hs m t _ hreg
+  · intro l hl
+    apply C12_shared_unchanged _ hconf
+    left
+    show regionOfArr calls l.arr = .sharedRO
+    unfold regionOfArr
+    cases h : ownerFrom calls 0 l.arr with
+    | none => rfl
+    | some u =>
+      obtain ⟨i, ci, h1, _, h3⟩ := ownerFrom_some calls 0 l.arr u h
+      simp only [calls, List.getElem?_map, Option.map_eq_some_iff] at h1
+      obtain ⟨p, hp, rfl⟩ := h1
+      exact absurd h3 (hl p (List.mem_of_getElem? hp))
+
+/-- **C12-T4 (tie: the erode program computes `C01.erodeModel`).** Let call number `t` of ANY family of
+calls be `erode` (any dtype, any views of the array / result / structuring element: arbitrary base,
+strides, shape with positive axis lengths; any structuring element) on arrays `[aA, aBc]` → `[aOut, aTmp]`
+with the input array distinct from the owned ones. If the initial memory presents the logical image `A`
+through the view `vA` at every position the border rule `nearest` delivers, and the result view does not
+overlap itself (distinct iterator addresses for distinct pixels), then after the SOLO run of the compiled
+step program the result location of pixel number `k` (the address `iterator_base` reaches after `k`
+increments) holds exactly `(C01.erodeModel dt A sup)[k]` — the value of the model the driver runs
+(`c01 kind=erode`), early exit included. Together with `C12_concurrent_kernels_independent` the same value
+is there after every complete interleaving with any other calls that have disjoint outputs. -/
+theorem C12_erode_program_computes_model (kcs : List KCall) (t : Nat) (dt : DT) (vA vOut vBc : C08.View)
+    (bc : Array Int) (aA aBc aOut aTmp : Nat)
+    (hk : kcs[t]? = some ((Kernel.erode dt vA vOut vBc bc).call ⟨[aA, aBc], [aOut, aTmp]⟩))
+    (hne1 : aA ≠ aOut) (hne2 : aA ≠ aTmp)
+    (A : Img Int) (hshape : A.shape = vA.shape) (hpos : ∀ d ∈ vA.shape, 0 < d) (m : Mem)
+    (hA : ∀ q q', fixPos .nearest vA.shape q = some q' →
+        m ((KLoc.mk aA (vA.addr (q'.map Int.toNat))).toLoc (kcs.map (·.call))) = A.getD q' 0)
+    (hinj : ∀ k k', k < shapeSize vA.shape → k' < shapeSize vA.shape →
+        iterAddr vOut k = iterAddr vOut k' → k = k')
+    (k : Nat) (hkn : k < shapeSize vA.shape) :
+    solo (compile kcs) t m ((KLoc.mk aOut (iterAddr vOut k)).toLoc (kcs.map (·.call))) =
+      (C01.erodeModel dt A (C01.support vBc.shape bc dt.isBool)).getD k 0 :=
+  erode_solo_value kcs t dt vA vOut vBc bc aA aBc aOut aTmp hk hne1 hne2 A hshape hpos m hA hinj k hkn
+
+/-- **C12-T4 (tie: the convolve program computes `C06.convAcc`).** Same setting for `convolve` with ANY
+border mode (flagged samples of `constant`/`ignore` are neither read nor accumulated): after the solo run
+the result location of pixel `k` holds the accumulator `C06.convAcc mode f support (unravel k)` of the
+polymorphic kernel model, here at `Int` (the driver instantiates the same definition at `Float`; the final
+cast to the output dtype of `convolveModel` is not part of the access program). -/
+theorem C12_convolve_program_computes_model (kcs : List KCall) (t : Nat) (md : Mode) (vA vOut vW : C08.View)
+    (w : Array Int) (aA aW aOut aTmp : Nat)
+    (hk : kcs[t]? = some ((Kernel.convolve md vA vOut vW w).call ⟨[aA, aW], [aOut, aTmp]⟩))
+    (hne1 : aA ≠ aOut) (hne2 : aA ≠ aTmp)
+    (f : Img Int) (hshape : f.shape = vA.shape) (m : Mem)
+    (hA : ∀ q q', fixPos md vA.shape q = some q' →
+        m ((KLoc.mk aA (vA.addr (q'.map Int.toNat))).toLoc (kcs.map (·.call))) = f.getD q' 0)
+    (hinj : ∀ k k', k < shapeSize vA.shape → k' < shapeSize vA.shape →
+        iterAddr vOut k = iterAddr vOut k' → k = k')
+    (k : Nat) (hkn : k < shapeSize vA.shape) :
+    solo (compile kcs) t m ((KLoc.mk aOut (iterAddr vOut k)).toLoc (kcs.map (·.call))) =
+      C06.convAcc md f (C06.support (fun (x : Int) => x == 0) vW.shape w) (unravelI vA.shape k) :=
+  convolve_solo_value kcs t md vA vOut vW w aA aW aOut aTmp hk hne1 hne2 f hshape m hA hinj k hkn
+
+/-- **C12-T4 (tie: the labeled-fold program computes `C08.labeledFoldView`).** Let call number `t` be
+`labeled_foldl` (any fold function — sum, max, min —, any start value, any `maxlabel`, any views of the
+array and of the labels) on arrays `[aA, aL]` → `[aRes, aReg]`, the five array ids distinct as required.
+If the initial memory holds `mA` in array `aA` and `mL` in array `aL` (the label memory the trace was
+generated from), then after the solo run of the step program — `std::fill`, then one read-modify-write
+of `result[label]` per in-range element — entry `j < maxlabel` of the result table is exactly
+`(C08.labeledFoldView f start maxlabel mA vA mL vL)[j]`, the kernel model the driver runs (`c08 kind=lsum`). -/
+theorem C12_labeled_fold_program_computes_model (kcs : List KCall) (t : Nat) (f : Val → Val → Val)
+    (start : Val) (maxlabel : Nat) (vA vL : C08.View) (mA mL : Int → Int) (aA aL aRes aReg : Nat)
+    (hk : kcs[t]? = some ((Kernel.fold f start maxlabel vA vL mL).call ⟨[aA, aL], [aRes, aReg]⟩))
+    (h1 : aA ≠ aRes) (h2 : aA ≠ aReg) (h3 : aL ≠ aRes) (h4 : aL ≠ aReg) (h5 : aRes ≠ aReg) (m : Mem)
+    (hA : ∀ a, m ((KLoc.mk aA a).toLoc (kcs.map (·.call))) = mA a)
+    (hL : ∀ a, m ((KLoc.mk aL a).toLoc (kcs.map (·.call))) = mL a)
+    (j : Nat) (hj : j < maxlabel) :
+    (C08.labeledFoldView f start maxlabel mA vA mL vL)[j]? =
+      some (solo (compile kcs) t m ((KLoc.mk aRes (j : Int)).toLoc (kcs.map (·.call)))) :=
+  fold_solo_value kcs t f start maxlabel vA vL mA mL aA aL aRes aReg hk h1 h2 h3 h4 h5 m hA hL j hj
+
+/-- **C12-T4 (partial: label and cwatershed).** For the access traces of `label` (generated along the run of
+`C03.scanPixel`/`C03.find`/`C03.join`/`C03.compress`/`C03.renumber`: the union-find parents are read and
+written in the call's own `labeled` buffer) and of `cwatershed` (generated along the run of
+`C04.modelInit`/`C04.extractMin`/`C04.modelVisit`: result, `status`, priority queue, `lines`, neighbour
+table), for every input and every footprint with an owned array: the write set lies in the call's owned
+arrays and the read set in its argument and owned arrays.
+MISSING: these two programs are *trace replays* — a write step stores the value the model stored, it does
+not recompute it from the values read — so their solo run is NOT proved to leave `C03.labelModel` /
+`C04.cwatershedModel` in the output locations; the offsets are not proved to lie inside the buffers
+(union-find parents `< N`, `npos < N`: C03/C04/C10 territory), and the roles are not proved to stay within
+`Kernel.arity`. Only the read/write SETS at array granularity are proved. -/
+theorem C12_label_cwatershed_traces_partial (c : Call) (hne : c.outputs ≠ []) :
+    (∀ (md : Mode) (shape : List Nat) (data : List Int) (vBc : C08.View) (bc : Array Int),
+      let p := ((Kernel.label md shape data vBc bc).call c).prog
+      (∀ l ∈ writeSet p, l.arr ∈ c.outputs) ∧ (∀ l ∈ readSet p, l.arr ∈ c.inputs ∨ l.arr ∈ c.outputs)) ∧
+    (∀ (vS vM vBc : C08.View) (surf markers : Img Int) (bc : Array Int),
+      let p := ((Kernel.cwatershed vS vM vBc surf markers bc).call c).prog
+      (∀ l ∈ writeSet p, l.arr ∈ c.outputs) ∧ (∀ l ∈ readSet p, l.arr ∈ c.inputs ∨ l.arr ∈ c.outputs)) := by
+  refine ⟨fun md shape data vBc bc => ?_, fun vS vM vBc surf markers bc => ?_⟩
+  · have h := C12_kernel_confined (Kernel.label md shape data vBc bc) c hne
+    exact ⟨h.2.1, h.2.2.1⟩
+  · have h := C12_kernel_confined (Kernel.cwatershed vS vM vBc surf markers bc) c hne
+    exact ⟨h.2.1, h.2.2.1⟩
 
 /-! ## non-vacuity -/
 
@@ -262,5 +445,90 @@ example : (Generated.statics.any fun o => o.name == "_factorialtable" && !o.isCo
     (Generated.gilSites.any fun s => s.func == "erode" && s.idiom == 0) = true ∧
     (Generated.gilSites.any fun s => s.func == "py_thin" && s.idiom == 1) = true ∧
     (Generated.gilSites.any fun s => s.func == "py_znl" && s.idiom == 2) = true := by decide
+
+/-! T4: two concrete `erode` calls (uint8, 1-D, 3 pixels) reading the SAME input array 10 with
+structuring elements 11 / 12 and results 20 / 30 -/
+
+def memOf (calls : List Call) (content : List (KLoc × Val)) : Mem :=
+  ⟨fun l => ((content.find? (fun p => p.1.toLoc calls == l)).map (·.2)).getD 0⟩
+
+def v3 : C08.View := { base := 0, shape := [3], strides := [1] }
+def k0 : Kernel := .erode (dtU 8) v3 v3 v3 #[1, 1, 0]
+def k1 : Kernel := .erode (dtU 8) v3 v3 v3 #[0, 1, 1]
+def ks : List (Kernel × Call) := [(k0, ⟨[10, 11], [20, 21]⟩), (k1, ⟨[10, 12], [30, 31]⟩)]
+def content : List (KLoc × Val) :=
+  [(⟨10,0⟩,5),(⟨10,1⟩,3),(⟨10,2⟩,7),(⟨11,0⟩,1),(⟨11,1⟩,1),(⟨11,2⟩,0),(⟨12,0⟩,0),(⟨12,1⟩,1),(⟨12,2⟩,1)]
+def outOf (calls : List Call) (m : Mem) (a : Nat) : List Int :=
+  (List.range 3).map fun (i : Nat) => m ((KLoc.mk a (i : Int)).toLoc calls)
+
+/-- the hypothesis "disjoint outputs" of `C12_concurrent_kernels_independent` holds for `ks` -/
+theorem ks_disjoint : DisjointOutputs (ks.map (·.2)) := by
+  intro i j ci cj hi hj a ha hb
+  have hi' : i = 0 ∨ i = 1 := by
+    have := (List.getElem?_eq_some_iff.1 hi).1; simp [ks] at this; omega
+  have hj' : j = 0 ∨ j = 1 := by
+    have := (List.getElem?_eq_some_iff.1 hj).1; simp [ks] at this; omega
+  rcases hi' with rfl | rfl <;> rcases hj' with rfl | rfl <;> simp [ks] at hi hj <;> subst hi <;> subst hj <;>
+    simp at ha hb <;> omega
+
+/-- … and the conclusion is not trivial: in the interleaving below each call ends with its own erosion
+(`[4,2,2]` = `C01.erodeModel` of `[5,3,7]` with element `[1,1,0]`; `[2,2,6]` with `[0,1,1]`), equal to its
+solo run; every step is inside its call's footprint -/
+example :
+    let kcs := ks.map (fun p => p.1.call p.2)
+    let calls := ks.map (·.2)
+    let m0 := memOf calls content
+    let sched := [0,1,1,0,0,1,0,1,1,0,0,1]
+    outOf calls (run (compile kcs) sched (init m0)).mem 20 = [4, 2, 2] ∧
+    outOf calls (run (compile kcs) sched (init m0)).mem 30 = [2, 2, 6] ∧
+    outOf calls (solo (compile kcs) 0 m0) 20 = [4, 2, 2] ∧
+    outOf calls (solo (compile kcs) 1 m0) 30 = [2, 2, 6] ∧
+    (C01.erodeModel (dtU 8) ⟨[3], #[5, 3, 7]⟩ (C01.support [3] #[1, 1, 0] false)).toList = [4, 2, 2] ∧
+    (kcs.all fun kc => kc.prog.all (KStep.withinB kc.call)) = true := by
+  decide +kernel
+
+/-- the same two calls writing the SAME result array 20: not covered (`DisjointOutputs` fails) … -/
+def bad : List (Kernel × Call) := [(k0, ⟨[10, 11], [20, 21]⟩), (k1, ⟨[10, 12], [20, 31]⟩)]
+
+example : ¬ DisjointOutputs (bad.map (·.2)) := by
+  intro h
+  have := h 0 1 ⟨[10, 11], [20, 21]⟩ ⟨[10, 12], [20, 31]⟩ (by simp [bad]) (by simp [bad]) 20 (by simp) (by simp)
+  omega
+
+/-- … and they really race: the content of array 20 depends on the schedule, and the compiled program of
+call 1 is not confined -/
+example :
+    let kcs := bad.map (fun p => p.1.call p.2)
+    let calls := bad.map (·.2)
+    let m0 := memOf calls content
+    outOf calls (run (compile kcs) [0,0,0,0,0,0,1,1,1,1,1,1] (init m0)).mem 20 = [2, 2, 6] ∧
+    outOf calls (run (compile kcs) [1,1,1,1,1,1,0,0,0,0,0,0] (init m0)).mem 20 = [4, 2, 2] ∧
+    ((compile kcs 1).all (Step.confinedB 1)) = false := by
+  decide +kernel
+
+/-- a labeled sum through reversed / strided views, a `label` trace and a `cwatershed` trace are non-empty
+programs inside their footprints; the fold program leaves `labeledFoldView` in the result table -/
+example :
+    let vA : C08.View := { base := 3, shape := [4], strides := [-1] }
+    let vL : C08.View := { base := 0, shape := [4], strides := [2] }
+    let mA : Int → Int := fun a => 10 + a
+    let mL : Int → Int := fun a => if a = 6 then 7 else a / 4
+    let kf : Kernel := .fold (fun x r => x + r) 0 2 vA vL mL
+    let c : Call := ⟨[1, 2], [3, 4]⟩
+    let kcs := [kf.call c]
+    let m0 : Mem := memOf [c] ((List.range 8).flatMap fun (a : Nat) => [(⟨1, (a : Int)⟩, mA a), (⟨2, (a : Int)⟩, mL a)])
+    (List.range 2).map (fun (j : Nat) => solo (compile kcs) 0 m0 ((KLoc.mk 3 (j : Int)).toLoc [c])) = [25, 11] ∧
+    (C08.labeledFoldView (fun x r => x + r) 0 2 mA vA mL vL).toList = [25, 11] ∧
+    (kf.call c).prog.length = 6 ∧
+    let kl : Kernel := .label .constant [2, 2] [1, 1, 0, 1] { base := 0, shape := [3, 3], strides := [3, 1] }
+      #[0, 1, 0, 1, 1, 1, 0, 1, 0]
+    let cl : Call := ⟨[5], [6, 7, 8, 9]⟩
+    ((kl.call cl).prog.all (KStep.withinB cl)) = true ∧ 20 ≤ (kl.call cl).prog.length ∧
+    let v22 : C08.View := { base := 0, shape := [2, 2], strides := [2, 1] }
+    let kw : Kernel := .cwatershed v22 v22 { base := 0, shape := [3, 3], strides := [3, 1] }
+      ⟨[2, 2], #[1, 2, 3, 4]⟩ ⟨[2, 2], #[1, 0, 0, 2]⟩ #[0, 1, 0, 1, 1, 1, 0, 1, 0]
+    let cw : Call := ⟨[1, 2, 3], [10, 11, 12, 13, 14, 15]⟩
+    ((kw.call cw).prog.all (KStep.withinB cw)) = true ∧ 20 ≤ (kw.call cw).prog.length := by
+  decide +kernel
 
 end Mahotas.C12.Examples
